@@ -1411,3 +1411,27 @@ MUTANTS += [
       edits=[(HCN, "        self.request_buffer_position = 0;\n\n", ""),
              (HCN, "                    return Ok((request, opt_peer_addr));", "                    self.request_buffer_position = 0;\n\n                    return Ok((request, opt_peer_addr));")]),
 ]
+
+URM = US + "workers/socket/uring/mod.rs"
+URS = US + "workers/socket/uring/send_buffers.rs"
+MUTANTS += [
+ dict(id="C06-uring-buffer-leaks-after-failed-send", props=["C06"], expect={"C06": r"send#uring#buffer_released_on_every_completion"},
+      edits=[(URM, """                unsafe {
+                    self.send_buffers
+                        .mark_buffer_as_free(send_buffer_index as usize);
+                }""", """                if result >= 0 {
+                    unsafe {
+                        self.send_buffers
+                            .mark_buffer_as_free(send_buffer_index as usize);
+                    }
+                }""")]),
+ dict(id="C06-uring-reply-sent-with-stale-length", props=["C06"], expect={"C06": r"send#uring#msghdr_per_reply"},
+      edits=[(URS, "                self.iovec.iov_len = cursor.position() as usize;\n\n", "")]),
+ dict(id="C06-uring-v6-header-keeps-v4-name", props=["C06"], expect={"C06": r"send#uring#msghdr_per_reply"},
+      edits=[(URS, "            self.msghdr.msg_name = addr_of_mut!(self.name_v6) as *mut libc::c_void;\n", "")]),
+ dict(id="C06-uring-reply-dropped-when-no-buffer", props=["C06"], expect={"C06": r"send#uring#who_queues"},
+      edits=[(URM, """                        Err(send_buffers::Error::NoBuffers(response)) => {
+                            self.local_responses.push_front((addr, response));
+""", """                        Err(send_buffers::Error::NoBuffers(_)) => {
+""")]),
+]
